@@ -347,6 +347,8 @@ def run(res, tier):
                         "Time values form a total order; histories are covered by induction on one cleanup from an arbitrary store state"]
     res.rule = ("one case = one removal site occurrence / one retaining path / one cleanup path; obligations decided "
                 "by z3 on the path condition; evaluations = z3 queries")
+    import argslice
+    argslice.check_cli_flag(res, E, mprop, "dirty_repository", "--dirty", "cleanup then runs although the operator asked to keep everything (or the reverse)")
     mprop.finish_engine(res, E)
 
 
